@@ -59,10 +59,19 @@ def body_fixed(rnd, kind):
                 FE("l", "j", [E(B("ne", {"k": "part", "e": IT("j"), "hi": 1, "lo": 0}, F("k")))])]
     if kind == "idx_merge":
         # two separately constrained variables (a, l[0]) related afterwards by a literal subscript
-        return [E(B("lt", F("a"), lit(3))), E(B("le", SUB("l", 0), lit(rnd.choice([1, 2])))), E(B(rnd.choice(["lt", "le"]), F("a"), SUB("l", 0))),
-                {"k": "soft", "e": B("eq", SUB("l", 0), lit(1))}]
+        # (none of the three is implied by the others: losing the constraints of either group while the sets merge shows)
+        ix = rnd.choice([0, 2])
+        join = B(rnd.choice(["le", "eq", "ge"]), F("a"), SUB("l", ix)) if rnd.random() < 0.7 else B(rnd.choice(["le", "eq"]), SUB("l", ix), F("a"))
+        return [E(B("ne", F("a"), lit(rnd.choice([1, 2])))), E(B("ne", SUB("l", ix), lit(rnd.choice([0, 2, 3])))), E(join),
+                {"k": "soft", "e": B("eq", SUB("l", ix), lit(1))}]
     if kind == "sum":
         return [E(B(rnd.choice(["eq", "le", "ge"]), {"k": "sum", "l": "l"}, rnd.choice([lit(rnd.randrange(7)), F("a")])))]
+    if kind == "expr_elem":
+        # an EXPRESSION on the left of an ordering relation whose right operand is a list element (literal index, and the
+        # foreach index): Python hands such a comparison to the right operand first
+        r1, r2, r3 = (rnd.choice(["lt", "le", "gt", "ge"]) for _ in range(3))
+        return [E(B(r1, B("add", F("a"), lit(1)), SUB("l", 2))), E(B(r2, B("add", SUB("l", 0), F("k")), SUB("l", 1))),
+                FE("l", "i", [E(B(r3, B("add", F("a"), lit(rnd.choice([0, 2]))), SUB("l", IX("i"))))], it=False, idx=True)]
     if kind == "sum_arith":
         # arithmetic NEXT to the sum: the width of l.sum follows the length of the list, which the edits between the calls change
         # (each relation has a 32-bit literal on the other side: the additions are evaluated at 32 bits, whatever width the
@@ -100,7 +109,7 @@ def body_fixed(rnd, kind):
     raise ValueError(kind)
 
 
-FIXED_KINDS = ["fe_it", "fe_idx", "fe_both", "fe_sorted", "fe_guard", "sum", "uniq", "uniq_mixed", "member", "index", "nl_member", "prod", "prod_fe", "fe_tbl", "fe_notidx", "fe_part", "idx_merge", "fe_toggle", "fe_agg", "fe_dyn", "sum_arith"]
+FIXED_KINDS = ["fe_it", "fe_idx", "fe_both", "fe_sorted", "fe_guard", "sum", "uniq", "uniq_mixed", "member", "index", "nl_member", "prod", "prod_fe", "fe_tbl", "fe_notidx", "fe_part", "idx_merge", "fe_toggle", "fe_agg", "fe_dyn", "sum_arith", "expr_elem"]
 
 
 def family_fixed(tier, seed, n=None):
@@ -111,7 +120,7 @@ def family_fixed(tier, seed, n=None):
             core = t < (per + 1) // 2
             rnd = random.Random((404 if core else 4100 + seed) * 100003 + t * 31 + FIXED_KINDS.index(kind))
             size = rnd.choice([0, 1, 2, 3, 3])
-            if kind in ("index", "idx_merge", "fe_agg"):
+            if kind in ("index", "idx_merge", "fe_agg", "expr_elem"):
                 size = 3
             fields = [fld("a", 2, False), fld("k", 2, False, rand=False, init=rnd.randrange(4)),
                       list_field("l", 2, rnd.random() < 0.2 and kind not in ("sum",), init=[0] * size, cap=5),
@@ -158,7 +167,7 @@ def family_fixed(tier, seed, n=None):
                     ops.append({"op": "list", "kind": "l_append", "p": "o1.nl", "vs": [bits(rnd.randrange(4), 2)]})
                 else:
                     ops.append({"op": "set", "p": "o1.k", "v": bits(rnd.randrange(4), 2)})
-                if kind in ("index", "idx_merge", "fe_agg") and size < 3:
+                if kind in ("index", "idx_merge", "fe_agg", "expr_elem") and size < 3:
                     ops.append({"op": "list", "kind": "l_assign", "p": "o1.l", "vs": [bits(0, 2)] * 3})
                     size = 3
                 elems = ["o1.l[%d]" % i for i in range(size)]
